@@ -13,20 +13,25 @@ import copy
 import functools
 import pickle
 
+from . import c19_occ as O
 from . import c19_sets as S
 from . import cells_common as C
 from . import core
 
 PROP = "C19"
 DRIVER = "drv_copy"
-DRIVERS = ["drv_copy", S.DRIVER]
-LEAN_MODULES = ["MesaModel.Props.C19", "MesaModel.Props.C19Sets"]
+DRIVERS = ["drv_copy", S.DRIVER, O.DRIVER]
+LEAN_MODULES = ["MesaModel.Props.C19", "MesaModel.Props.C19Sets", "MesaModel.Props.C19Occ"]
 THEOREMS = ["Mesa.Copy." + t for t in (
     "C19_cells_see_own_layers", "C19_copy_sees_own_layers", "C19_copy_faithful", "C19_copy_detached",
     "C19_spaces_never_share", "C19_original_untouched_by_copy", "C19_reject_unchanged")] + [
     "Mesa.CopySet." + t for t in (
         "C19_agentset_reachable_wf", "C19_agentset_copy_faithful", "C19_agentset_copy_without_owners_loses_members",
-        "C19_agentset_frame", "C19_agentset_original_untouched_by_copy", "C19_agentset_copy_detached")]
+        "C19_agentset_frame", "C19_agentset_original_untouched_by_copy", "C19_agentset_copy_detached")] + [
+    "Mesa.CopyOcc." + t for t in (
+        "C19_space_reachable", "C19_space_mirror", "C19_space_capacity", "C19_space_closure", "C19_space_never_share",
+        "C19_space_copy_faithful", "C19_space_copy_same_occupancy", "C19_space_copy_mentions_only_new_objects", "C19_space_copied_agents_point_into_copy", "C19_space_ghost_copy_points_outside",
+        "C19_space_frame", "C19_space_original_untouched_by_copy", "C19_space_copy_detached")]
 COUNTS = {"quick": 400, "thorough": 100000}
 HEADER_LINES = 1
 TRUSTED = [
@@ -35,16 +40,22 @@ TRUSTED = [
     "numpy array copying",
     "AgentSet half (Model/CopySet.lean): CPython reference counting + gc as 'alive iff reachable' (the harness collects before every line and holds agents weakly); one public attribute per agent; sets are never dropped by the program",
     "the identity-level model (Model/Copy.lean) covers grids' dynamic cell class + property descriptors; Network / Voronoi cells have no descriptors",
+    "occupancy half (Model/CopyOcc.lean): one Model per space, copied as the pair (space, model); connections are never edited by the program, so the rebuilt connections of a copy are the shifted ones of the original; the second capacity test of a re-entering `agent.cell = cell` is unreachable (capacity invariant); the generator object of a space (space.random = model.random = every cell.random) and the dynamic cell class of a grid share the identity of the pair space / model (cells refer to them through `rnd` / `klass`)",
 ]
 ASSUMPTIONS = ["the space is copied together with the agents in it and their model (what deepcopy / pickle of a space does)",
-               "extra layers hold small integers (dtype int); names are chosen among non-clashing identifiers plus the rejected ones"]
+               "extra layers hold small integers (dtype int); names are chosen among non-clashing identifiers plus the rejected ones",
+               "occupancy half: the program places an agent only in cells of the space its model was built with (other cells: refused by the harness as by the model, `err Foreign`) and drops an agent after remove()"]
 RULE = ("a random C06 history (grids of 1-3 axes incl. hex, networks, Voronoi; capacities) plus extra property layers, then "
         "copy deepcopy|pickle, then 4-14 further operations / queries addressed at random to the original or the copy "
         "(placing, moving, removing, new agents, layer writes through cells, fills, layer add/del, neighbourhood and connection "
-        "queries, a second-generation copy in thorough); non-trivial = the copy holds at least one agent and at least one "
+        "queries, CellCollection queries incl. random picks, a second-generation copy in thorough); non-trivial = the copy holds at least one agent and at least one "
         "state-changing operation was applied to each side afterwards; distinct by sha1 of op lines.  30 % of the scenarios are "
         "AgentSet histories (harness/c19_sets.py): 1-2 models, agents, 1-2 sets, set / agent operations, one or two copies (of the "
-        "original or of a copy), then operations on either family, every set read back after every operation")
+        "original or of a copy), then operations on either family, every set read back after every operation.  20 % are occupancy "
+        "histories at identity level (harness/c19_occ.py): 1-2 real spaces (Moore / von Neumann in 1-3 axes, hex, networks; capacities "
+        "none / 0 / 1-3) with the connection relation computed by the generator, CellAgents placed, moved, re-entered, taken out, "
+        "removed, refused (full, foreign cell, unknown operand), one or two copies (of a copy too), then operations on any side; every "
+        "space is read back in full (cells, occupancy, pointers, connections, empty layer) after every operation")
 
 LAYER_NAMES = ["v", "w", "heat"]
 BAD_NAMES = ["empty", "capacity", "coordinate"]
@@ -252,13 +263,19 @@ def is_sets(sc):
     return sc.lines[0] == S.HEADER
 
 
+def is_occ(sc):
+    return sc.lines[0] == O.HEADER
+
+
 def driver_for(sc):
-    return S.DRIVER if is_sets(sc) else DRIVER
+    return S.DRIVER if is_sets(sc) else O.DRIVER if is_occ(sc) else DRIVER
 
 
 def run_impl(sc):
     if is_sets(sc):
         return S.run_impl(sc)
+    if is_occ(sc):
+        return O.run_impl(sc)
     impl = Impl(sc.lines[0].split())
     obs = ["ok" if impl.o.impl.space is not None else "err Value"]
     for l in sc.lines[1:]:
@@ -306,6 +323,8 @@ def dump_inconsistencies(dump, hand_written_empty=False):
 def oracle(sc, obs):
     if is_sets(sc):
         return S.oracle(sc, obs)
+    if is_occ(sc):
+        return O.oracle(sc, obs)
     bad = []
     # once the program has written the built-in `empty` layer by hand, that layer legitimately differs from emptiness
     hand_empty = any(" layer set empty " in " " + l + " " for l in sc.lines)
@@ -333,6 +352,8 @@ def oracle(sc, obs):
             part = next((n for n, a, b in zip(("dump", "connections", "capacities", "layers"), before, after) if a != b), "?")
             bad.append(f"detached-frame: '{op}' on side {side} changed the {part} of the other side")
     for l, o in zip(sc.lines, obs):
+        if "INCONSISTENT" in o:
+            bad.append(f"copy-collection: '{l}': a cell collection of that side does not carry the side's generator / live agent lists ({o.split('INCONSISTENT:')[-1]})")
         if "MISMATCH" in o:
             bad.append(f"one-value: '{l}': the cell attribute and the layer array disagree ({o})")
         if o.startswith("err Descriptor"):
@@ -345,6 +366,9 @@ def generate(rng, tier, count):
     for _ in range(count):
         if R.random() < 0.3:
             yield S.generate_one(R, tier)
+            continue
+        if R.random() < 0.28:   # ~20 % of all scenarios
+            yield O.generate_one(R, tier)
             continue
         k = R.random()
         header = C.gen_grid_header(R) if k < 0.7 else None
@@ -392,11 +416,15 @@ def generate(rng, tier, count):
                 return f"{prefix}remove {a}"
             if j < 0.75:
                 return f"{prefix}new {R.choice(['cell', 'cell', 'fixed'])}"
-            if j < 0.85:
+            if j < 0.82:
                 return f"{prefix}nbhd {R.choice(names)} {R.randint(1, 2)} {R.randint(0, 1)}"
-            if j < 0.92:
+            if j < 0.87:
                 return f"{prefix}conns {R.choice(names)}"
-            return f"{prefix}nbagents {R.choice(names)} {R.randint(1, 2)} {R.randint(0, 1)}"
+            if j < 0.92:
+                return f"{prefix}nbagents {R.choice(names)} {R.randint(1, 2)} {R.randint(0, 1)}"
+            # the CellCollection API on that side (all_cells / empties / neighbourhoods, selections, random picks): the
+            # collections of a copy must hold the copy's live agent lists and the copy's generator
+            return prefix + C.gen_coll(R, h, names).rstrip()
 
         # agent indices are per side after the copy (both sides start with the same agents)
         count_side = {"o": n_agents, "c": n_agents}
@@ -430,6 +458,8 @@ def generate(rng, tier, count):
 def nontrivial(sc, obs):
     if is_sets(sc):
         return S.nontrivial(sc, obs)
+    if is_occ(sc):
+        return O.nontrivial(sc, obs)
     i = next((k for k, l in enumerate(sc.lines) if l.startswith("copy ")), None)
     if i is None:
         return False
@@ -443,6 +473,9 @@ def tags(sc, obs):
     if is_sets(sc):
         yield from S.tags(sc, obs)
         return
+    if is_occ(sc):
+        yield from O.tags(sc, obs)
+        return
     w = sc.lines[0].split()
     yield "space:" + (w[1] + ":" + w[2] if w[1] == "grid" else w[1])
     for l, o in zip(sc.lines, obs):
@@ -452,7 +485,8 @@ def tags(sc, obs):
         if ws[0] == "copy2":
             yield "copy2:" + ws[1] + ":of-" + ws[2]
         if ws[0] in ("o", "c", "d"):
-            yield f"side-{ws[0]}:{ws[1]}" + (":" + ws[2] if ws[1] == "layer" else "") + (":" + o.split()[1] if o.startswith("err") else "")
+            yield (f"side-{ws[0]}:{ws[1]}" + (":" + ws[2] if ws[1] == "layer" else "") + (":" + ws[3] if ws[1] == "coll" and len(ws) > 3 else "")
+                   + (":" + o.split()[1] if o.startswith("err") else ""))
 
 
 def extra(ctx):
@@ -524,8 +558,8 @@ def extra(ctx):
                       and sorted(c.coordinate for c in g2[tuple(0 for _ in dims)].neighborhood)
                       == sorted(c.coordinate for c in g[tuple(0 for _ in dims)].neighborhood))
                 err = None if ok else "the copy differs from the original"
-            except RecursionError:
-                err = "RecursionError"
+            except Exception as e:  # noqa: BLE001  RecursionError is S23; any other failure to copy is a violation as well
+                err = type(e).__name__
             if err:
                 ctx.violation("large-grid", {"kind": "impl-counterexample", "oracle_clause": [f"copy-unusable: {how} of a {dims} {klass.__name__} whose cells' neighborhoods were used: {err}"],
                                               "dims": dims, "how": how})
